@@ -133,6 +133,14 @@ PROPS = {
         "assumptions": COMMON_ASSUME + ["the frame size of the scanner functions and Go's stack limit are runtime matters"],
         "trusted_base": ["scanner hand-modelled with the Go `lvl` argument explicit; cap facts regenerated; tie: jcap ops at caps 1..6 and the real cap +-1, bomb runs in a child process with an 8 MiB stack"],
     },
+    "C06": {
+        "slices": ["C06"],
+        "race": True,
+        "relevant_diff": anything,
+        "assumptions": COMMON_ASSUME + ["Go memory model; sync.RWMutex, sync/atomic, sync.Pool behave as documented; the race detector reports the races that occur in the explored schedules"],
+        "trusted_base": ["lock/atomic event programs regenerated from mimetype.go / mime.go (Gen/Sync.lean); abstract RWMutex semantics (Model/Sync.lean); tie: exact event lists + race-detector stress + limit-flip ops"],
+        "partial": ["the theorem is about the locking protocol; data races inside sync, torn reads, and real schedules are explored with -race, not proved"],
+    },
     "C07": {
         "slices": ["tree", "C07", "corpus"],
         "relevant_diff": dets_only("Text"),
